@@ -25,6 +25,33 @@ pub fn lit_of(e: &syn::Expr) -> Option<Val> {
         },
         syn::Expr::Paren(p) => lit_of(&p.expr),
         syn::Expr::Group(p) => lit_of(&p.expr),
+        // `u16::MAX as i128`, `-1`: constant expressions over literals and the integer limits
+        syn::Expr::Cast(c) => lit_of(&c.expr),
+        syn::Expr::Unary(u) if matches!(u.op, syn::UnOp::Neg(_)) => match lit_of(&u.expr) {
+            Some(Val::Int { v, .. }) => Some(Val::int(-v)),
+            _ => None,
+        },
+        syn::Expr::Path(p) if p.path.segments.len() == 2 => {
+            let ty = p.path.segments[0].ident.to_string();
+            let which = p.path.segments[1].ident.to_string();
+            let (min, max): (i128, i128) = match ty.as_str() {
+                "u8" => (0, u8::MAX as i128),
+                "u16" => (0, u16::MAX as i128),
+                "u32" => (0, u32::MAX as i128),
+                "u64" => (0, u64::MAX as i128),
+                "i8" => (i8::MIN as i128, i8::MAX as i128),
+                "i16" => (i16::MIN as i128, i16::MAX as i128),
+                "i32" => (i32::MIN as i128, i32::MAX as i128),
+                "i64" => (i64::MIN as i128, i64::MAX as i128),
+                "i128" => (i128::MIN, i128::MAX),
+                _ => return None,
+            };
+            match which.as_str() {
+                "MAX" => Some(Val::int(max)),
+                "MIN" => Some(Val::int(min)),
+                _ => None,
+            }
+        }
         _ => None,
     }
 }
